@@ -595,7 +595,8 @@ class _Walk:
         if isinstance(st, (ast.Continue, ast.Break)):
             return "dead" if not in_loop else None
         if isinstance(st, ast.If):
-            self.expr(st.test, in_loop)
+            if not (isinstance(st.test, ast.Name) or (isinstance(st.test, ast.UnaryOp) and isinstance(st.test.op, ast.Not) and isinstance(st.test.operand, ast.Name))):
+                self.expr(st.test, in_loop)  # (`if xs:` / `if not xs:` asks whether there is anything, it does not iterate)
             before = dict(self.count)
             d1 = self.block(st.body, in_loop)
             after1 = dict(self.count)
